@@ -2207,12 +2207,82 @@ XSLTEngineImpl::cloneToResultTree(
         case XalanNode::ATTRIBUTE_NODE:
             if (isElementPending() == true)
             {
-                addResultAttribute(
-                        getPendingAttributesImpl(),
-                        node.getNodeName(),
-                        node.getNodeValue(),
-                        true,
-                        locator);
+                const XalanDOMString&   theNamespace = node.getNamespaceURI();
+                const XalanDOMString&   thePrefix = node.getPrefix();
+
+                if (theNamespace.empty() == true ||
+                    thePrefix.empty() == true ||
+                    equals(thePrefix, DOMServices::s_XMLString) == true ||
+                    equals(thePrefix, DOMServices::s_XMLNamespace) == true)
+                {
+                    addResultAttribute(
+                            getPendingAttributesImpl(),
+                            node.getNodeName(),
+                            node.getNodeValue(),
+                            true,
+                            locator);
+                }
+                else
+                {
+                    // The attribute is in a namespace, so the result needs a
+                    // declaration that binds the prefix of its name.
+                    const ECGetCachedString     thePrefixGuard(*m_executionContext);
+                    const ECGetCachedString     theNameGuard(*m_executionContext);
+
+                    XalanDOMString&     theNewPrefix = thePrefixGuard.get();
+                    XalanDOMString&     theName = theNameGuard.get();
+
+                    const XalanDOMString* const     theBoundNamespace =
+                        getResultNamespaceForPrefix(thePrefix);
+
+                    if (theBoundNamespace == 0 ||
+                        equals(*theBoundNamespace, theNamespace) == true)
+                    {
+                        theNewPrefix.assign(thePrefix);
+                    }
+                    else
+                    {
+                        // The prefix is bound to another namespace in the result...
+                        const XalanDOMString* const     theBoundPrefix =
+                            getResultPrefixForNamespace(theNamespace);
+
+                        if (theBoundPrefix != 0 &&
+                            theBoundPrefix->empty() == false &&
+                            getResultNamespaceForPrefix(*theBoundPrefix) != 0 &&
+                            equals(*getResultNamespaceForPrefix(*theBoundPrefix), theNamespace) == true)
+                        {
+                            theNewPrefix.assign(*theBoundPrefix);
+                        }
+                        else
+                        {
+                            getUniqueNamespaceValue(theNewPrefix);
+                        }
+                    }
+
+                    if (getResultNamespaceForPrefix(theNewPrefix) == 0)
+                    {
+                        theName.assign(DOMServices::s_XMLNamespaceWithSeparator);
+                        theName.append(theNewPrefix);
+
+                        addResultAttribute(
+                                getPendingAttributesImpl(),
+                                theName,
+                                theNamespace,
+                                true,
+                                locator);
+                    }
+
+                    theName.assign(theNewPrefix);
+                    theName.append(DOMServices::s_XMLNamespaceSeparatorString);
+                    theName.append(node.getLocalName());
+
+                    addResultAttribute(
+                            getPendingAttributesImpl(),
+                            theName,
+                            node.getNodeValue(),
+                            true,
+                            locator);
+                }
             }
             else
             {
